@@ -30,6 +30,7 @@ type PropConfig struct {
 	Replay      string        `json:"replay"`    // replay family
 	Witnesses   []string      `json:"witnesses"` // witness inputs tried first by the replay harness
 	Slow        []string      `json:"slow"`      // regexps: obligations only run in the thorough tier
+	Closure     []string      `json:"closure"`   // packages: also every function of these packages statically reachable from the listed ones (new helpers are swept too)
 	MinObl      int           `json:"min_obligations"`
 	Bounded     []BoundedSpec `json:"bounded"`
 }
@@ -197,6 +198,15 @@ func cmdCheck(args []string) int {
 			continue
 		}
 		keys = append(keys, p)
+	}
+	if len(pc.Closure) > 0 {
+		for _, k := range e.reachableFrom(keys) {
+			for _, p := range pc.Closure {
+				if strings.HasPrefix(k, p+".") {
+					keys = append(keys, k)
+				}
+			}
+		}
 	}
 	{
 		seenKey := map[string]bool{}
@@ -528,4 +538,54 @@ func (e *Engine) staticallyCalled() map[*ssa.Function]bool {
 	}
 	e.calledCache = m
 	return m
+}
+
+
+// reachableFrom: the keys of the repository functions (with a body, not closures) that the given ones call
+// directly or indirectly by a static call, in a stable order; functions already listed are not repeated.
+func (e *Engine) reachableFrom(keys []string) []string {
+	byFn := map[*ssa.Function]string{}
+	for k, f := range e.funcs {
+		if f != nil {
+			byFn[f] = k
+		}
+	}
+	seen := map[string]bool{}
+	for _, k := range keys {
+		seen[k] = true
+	}
+	var out []string
+	work := append([]string{}, keys...)
+	for len(work) > 0 {
+		k := work[0]
+		work = work[1:]
+		f := e.funcs[k]
+		if f == nil {
+			continue
+		}
+		var visit func(f *ssa.Function)
+		visit = func(f *ssa.Function) {
+			for _, b := range f.Blocks {
+				for _, in := range b.Instrs {
+					if c, ok := in.(ssa.CallInstruction); ok {
+						if g := c.Common().StaticCallee(); g != nil {
+							if gk, ok := byFn[g]; ok && !seen[gk] && g.Parent() == nil && len(g.Blocks) > 0 {
+								seen[gk] = true
+								out = append(out, gk)
+								work = append(work, gk)
+							}
+						}
+					}
+					if mc, ok := in.(*ssa.MakeClosure); ok {
+						if g, ok := mc.Fn.(*ssa.Function); ok {
+							visit(g)
+						}
+					}
+				}
+			}
+		}
+		visit(f)
+	}
+	sort.Strings(out)
+	return out
 }
